@@ -21,6 +21,10 @@ type Circle struct {
 }
 
 func (c Circle) ToMesh() modeling.Mesh {
+	if c.Sides < 1 {
+		// no sides, no triangles: the closing triangle below would refer to vertex -1
+		return modeling.EmptyMesh(modeling.TriangleTopology)
+	}
 
 	angleIncrement := (1.0 / float64(c.Sides)) * 2.0 * math.Pi
 	vertices := make([]vector3.Float64, c.Sides+1)
